@@ -137,7 +137,18 @@ impl PubSubManager {
         
         let conn_info = match conn_subs.get_mut(&connection_id) {
             Some(info) => info,
-            None => return Ok(results), // Connection has no subscriptions
+            None => {
+                // Connection has no subscriptions: every named channel is
+                // still acknowledged, with a remaining count of 0
+                for channel in channels.unwrap_or_default() {
+                    results.push(SubResult {
+                        subscription: Subscription::Channel(channel),
+                        num_subscriptions: 0,
+                        is_new: false,
+                    });
+                }
+                return Ok(results);
+            }
         };
         
         // Determine which channels to unsubscribe from
@@ -227,7 +238,18 @@ impl PubSubManager {
         
         let conn_info = match conn_subs.get_mut(&connection_id) {
             Some(info) => info,
-            None => return Ok(results), // Connection has no subscriptions
+            None => {
+                // Connection has no subscriptions: every named pattern is
+                // still acknowledged, with a remaining count of 0
+                for pattern in patterns.unwrap_or_default() {
+                    results.push(SubResult {
+                        subscription: Subscription::Pattern(pattern),
+                        num_subscriptions: 0,
+                        is_new: false,
+                    });
+                }
+                return Ok(results);
+            }
         };
         
         // Determine which patterns to unsubscribe from
